@@ -1776,3 +1776,11 @@ mod tests {
         }
     }
 }
+
+#[cfg(rs_matter_verif)]
+impl ExchangeId {
+    /// Verification hook: the raw (session unique id, exchange index) encoding.
+    pub fn verif_raw(&self) -> u32 {
+        self.0
+    }
+}
